@@ -58,6 +58,11 @@ def init (n : Nat) : Shared :=
 /-- number of words chosen by `New(protocol)` -/
 def wordsOfProto (proto : Nat) : Nat := if proto > 2 then 32768 / 64 else 128 / 64
 
+/-- the capacity the PROPERTY prescribes for a protocol version ("1..127 for v1-2, 1..32767 for v3+": 128 / 32768
+    ids including the reserved id 0). Written from the property text, independent of `New` / `wordsOfProto`;
+    Proofs/C08 `C08_capacity_by_protocol` proves that the generator `New(protocol)` builds has exactly this capacity. -/
+def specCap (proto : Nat) : Nat := if proto ≤ 2 then 128 else 32768
+
 /-- `(offset+1)%s.numBuckets` with `offset uint32`: the increment wraps at 2^32, then `% numBuckets` -/
 def nextOffset (n o : Nat) : Nat := (o + 1) % 4294967296 % n
 
@@ -184,6 +189,19 @@ def seqOp (sh : Shared) (op : Op) : Shared × Option Ret :=
 def getStream (sh : Shared) : Shared × Option Ret := seqOp sh .get
 def clear (sh : Shared) (id : Nat) : Shared × Option Ret := seqOp sh (.clear id)
 def available (sh : Shared) : Int := (64 * sh.words.length : Nat) - sh.inuse - 1
+
+/-- `Clear(stream)` for a NEGATIVE argument `stream = -k` (`k ≥ 1`), sequentially, as the unchanged code behaves (the
+    argument is an `int` and is not checked; proposed finding KF-C08-3): `bucketOffset(-k) = -(k/64)` (Go's division
+    truncates toward zero) — for `k ≥ 64` an index panic; for `1 ≤ k ≤ 63` word 0 is loaded,
+    `streamOffset(-k) = 64 - uint64(-k % 64) - 1 = 63 + k ≥ 64` (uint64 arithmetic), so the mask `uint64(1) << (63+k)`
+    is 0, the "already cleared" guard `bucket&mask != mask` is false, the CAS writes the word back unchanged and the
+    in-use counter is decremented: `true` (or the 'negative streams inuse' panic) with no bit changed. Hand-modelled,
+    tied by the sequential differential run (`n<k>` tokens); ids of every other definition and theorem are `Nat`. -/
+def clearNeg (sh : Shared) (k : Nat) : Shared × Option Ret :=
+  if 64 ≤ k then (sh, some .crashIndex)
+  else
+    let v := sh.inuse - 1
+    ({ sh with inuse := v }, some (if v < 0 then .crashNegative else .cleared true))
 
 /-! ### the concurrent machine: k threads, one action = one atomic operation of one thread -/
 
@@ -343,6 +361,54 @@ def seqMon (cap : Nat) : Shared → Array Bool → Nat → List Op → Bool
     | some st' =>
       decide (available (seqOp sh op).1 = ((cap - 1 - st'.cnt : Nat) : Int)) && seqMon cap (seqOp sh op).1 st'.tbl st'.cnt ops
     | none => false
+
+/-! ### linearization of the concurrent machine (Proofs/C08Lin, `C08_linearizable_partial`)
+
+Linearization points (one atomic operation each, inside the call they belong to): `GetStream` returning an id — its
+successful CAS on the word (`g5 → g7 id`); `Clear(id)` returning true — its successful CAS (`c9 → c11 id`);
+`Clear(id)` returning false — the load that saw the bit clear (`c8`, or `c10` after a failed CAS); `Clear(id)`
+beyond the capacity — the call itself. A failing `GetStream` and `Available()` have none. -/
+
+/-- the (op, answer) linearized by the atomic operation of a thread standing at `pc` -/
+def lpOf (sh : Shared) : PC → List (Op × Option Ret)
+  | .g5 off i j b =>
+      if sh.words.getD ((i + off) % sh.words.length) 0 = b then
+        [(.get, some (.stream (streamFromBucket ((i + off) % sh.words.length) j) true))]
+      else []
+  | .c9 id b => if sh.words.getD (bucketOffset id) 0 = b then [(.clear id, some (.cleared true))] else []
+  | .c8 id =>
+      if bucketOffset id < sh.words.length then
+        (if sh.words.getD (bucketOffset id) 0 &&& mask id ≠ mask id then [(.clear id, some (.cleared false))] else [])
+      else [(.clear id, some .crashIndex)]
+  | .c10 id =>
+      if sh.words.getD (bucketOffset id) 0 &&& mask id ≠ mask id then [(.clear id, some (.cleared false))] else []
+  | _ => []
+
+def linOf (s : State) : Action → List (Op × Option Ret)
+  | .start _ op => lpOf s.sh (startPC op)
+  | .step t => match s.threads[t]? with
+    | some pc => lpOf s.sh pc
+    | none => []
+
+/-- run a schedule (no client protocol; only the actions accepted by `ok`) and collect the linearization:
+    the linearized (op, answer) pairs in the order of their linearization points -/
+def runLin (ok : State → Action → Bool) : State → List Action → Option (State × List (Op × Option Ret))
+  | s, [] => some (s, [])
+  | s, a :: as =>
+    if ok s a then
+      match step s a with
+      | some (s', _) => (runLin ok s' as).map (fun p => (p.1, linOf s a ++ p.2))
+      | none => none
+    else none
+
+/-- the sequential specification accepts a list of (op, answer) pairs (the `Available()` column of `specCheck`
+    left out) -/
+def specAccepts (cap : Nat) : SpecSt → List (Op × Option Ret) → Option SpecSt
+  | st, [] => some st
+  | st, (op, r) :: rest =>
+    match specStep cap st.tbl st.cnt op r with
+    | some st' => specAccepts cap st' rest
+    | none => none
 
 /-! ### "any history": sequential histories in which the rotating offset word is set to an arbitrary value
 
